@@ -256,27 +256,44 @@ func exec(op string) (string, string) {
 		close(finished)
 	}()
 
-	// phase B: concurrent arrival while the waiter polls
+	// phase B: arrival while the waiter polls.  The code under test has ONE listener goroutine, so
+	// what races with the waiter is that goroutine; the order in which it sees the messages is the
+	// order of delivery.  If two different messages of B have the same sender (first one wins) B is
+	// delivered in order by one goroutine, otherwise by concurrent goroutines (order irrelevant).
 	if len(B) > 0 {
+		ordered := false
+		for i := range B {
+			for j := range B {
+				if i != j && B[i].sender == B[j].sender && B[i] != B[j] {
+					ordered = true
+				}
+			}
+			if B[i].viaSignal {
+				ordered = true // signalDone shares the channel's self key
+			}
+		}
 		var wg sync.WaitGroup
 		start := make(chan struct{})
-		for _, m := range B {
-			if m.viaSignal { // signalDone shares the channel's self key: keep those sequential
-				continue
-			}
+		if ordered {
 			wg.Add(1)
-			go func(m dmsg) {
+			go func() {
 				defer wg.Done()
 				<-start
-				send(m)
-			}(m)
-		}
-		close(start)
-		for _, m := range B {
-			if m.viaSignal {
-				send(m)
+				for _, m := range B {
+					send(m)
+				}
+			}()
+		} else {
+			for _, m := range B {
+				wg.Add(1)
+				go func(m dmsg) {
+					defer wg.Done()
+					<-start
+					send(m)
+				}(m)
 			}
 		}
+		close(start)
 		wg.Wait()
 		if !waitFor(sentinel(), finished) {
 			return "HANG-sentinel-B", "hang"
@@ -365,6 +382,15 @@ func exec(op string) (string, string) {
 	add(viaSig, "signaldone")
 	add(len(B) > 0, "concurrent")
 	add(len(B) > 0 && count > countA, "lateconfirm")
+	sameSenderB := false
+	for i := range B {
+		for j := range B {
+			if i != j && B[i].sender == B[j].sender && B[i] != B[j] {
+				sameSenderB = true
+			}
+		}
+	}
+	add(sameSenderB, "firstwins")
 	return out, strings.Join(tags, "+")
 }
 
@@ -506,18 +532,7 @@ func gen(r *hx.Rng, n int, tier string) []string {
 			cut = 0
 		}
 		A, B := all[:cut], all[cut:]
-		// keep B order-independent: at most one message per sender in B (others move to A)
-		var B2, A2 []dmsg
-		A2 = append(A2, A...)
-		seenB := map[int]bool{}
-		for _, m := range B {
-			if seenB[m.sender] {
-				A2 = append(A2, m)
-			} else {
-				seenB[m.sender] = true
-				B2 = append(B2, m)
-			}
-		}
+		A2, B2 := A, B
 		ops = append(ops, fmt.Sprintf("done %s %s %d %d %d %s %s", hx.JoinInts(operators), hx.JoinInts(included),
 			message, attempt, timeoutBlock, joinMsgs(A2), joinMsgs(B2)))
 	}
